@@ -519,9 +519,14 @@ def members_follow_group_name(ctx: Ctx, rep: Report, rid: str = "R13.9") -> None
         if carries:
             n += 1
             rep.instance()
-            by_name = [x for x in own_nodes(f.node) if isinstance(x, ast.Compare) and sum(1 for y in ast.walk(x) if (isinstance(y, ast.Attribute) and y.attr.lstrip("_") == "addrgroup") or (isinstance(y, ast.Name) and "addrgroup" in y.id)) >= 2]
+            # an equality with the name that stood at THAT position: membership in the pair of old names (`not in
+            # {old_src, old_dst}`) keeps the members of the source group for a destination that now names it
+            by_name = [x for x in own_nodes(f.node) if isinstance(x, ast.Compare) and len(x.ops) == 1 and isinstance(x.ops[0], (ast.Eq, ast.NotEq)) and sum(1 for y in ast.walk(x) if (isinstance(y, ast.Attribute) and y.attr.lstrip("_") == "addrgroup") or (isinstance(y, ast.Name) and "addrgroup" in y.id)) >= 2]
             looked_up = [x for x in own_nodes(f.node) if (isinstance(x, ast.Subscript) and any(isinstance(y, ast.Attribute) and y.attr.lstrip("_") == "addrgroup" for y in ast.walk(x.slice))) or (isinstance(x, ast.Call) and isinstance(x.func, ast.Attribute) and x.func.attr == "get" and x.args and any(isinstance(y, ast.Attribute) and y.attr.lstrip("_") == "addrgroup" for y in ast.walk(x.args[0])))]
-            if by_name or looked_up:
+            pooled = [x for x in own_nodes(f.node) if isinstance(x, ast.Compare) and len(x.ops) == 1 and isinstance(x.ops[0], (ast.In, ast.NotIn)) and sum(1 for y in ast.walk(x) if (isinstance(y, ast.Attribute) and y.attr.lstrip("_") == "addrgroup") or (isinstance(y, ast.Name) and "addrgroup" in y.id)) >= 2]
+            if pooled and not by_name and not looked_up:
+                rep.violation("Ace.line.setter", snippet(pooled[0], 50), "the carried-over members are kept when the new group name is ANY of the old names, not the name that stood at that position: with the two groups swapped in the new text, the source is judged by the members of the old source group although it now names the other group", where(f, pooled[0]), inp="ace.line = 'permit ip object-group DB object-group WEB' on an entry that read '... object-group WEB object-group DB'")
+            elif by_name or looked_up:
                 rep.ok("Ace.line.setter", f"members carried over from the previous address are kept only for the same group name ({snippet((by_name or looked_up)[0], 40)})", where=where(f, (by_name or looked_up)[0]))
             else:
                 rep.violation("Ace.line.setter", f"{snippet(carries[0][0], 30)} items={snippet(carries[0][1], 30)}", "the address built from the new text receives the members of the address that stood at that position before, whatever group the new text names: after `ace.line = ...` with the groups swapped or renamed, containment and shadow answers are given for the members of the other group", where(f, carries[0][0]), inp="ace = acls(cfg)[0].items[0]  # permit ip object-group G object-group H; ace.line = 'permit ip object-group H object-group G'")
